@@ -54,7 +54,9 @@ FieldClauses(fam, b, g) ==
       ELSE <<>>)
   \o (IF fam = "shutter" THEN Cl(g.position = d.position, "C05:position") \o Cl(g.direction = d.direction, "C05:direction") ELSE <<>>)
 
-OnlyCallbackExc(e) == \A k \in 1..Len(e.excs) : e.cbraise /\ e.excs[k] \in {"CallbackBoom", "CallbackBase", "CancelledError"}
+\* the only exception a valid broadcast may end with is the one the user's own callback raised (e.cbexc: its class)
+OnlyCallbackExc(e) == \A k \in 1..Len(e.excs) : e.cbraise /\ (IF "cbexc" \in DOMAIN e THEN e.excs[k] = e.cbexc
+                                                               ELSE e.excs[k] \in {"CallbackBoom", "CallbackBase", "CancelledError"})
 
 JudgeDgram(e) ==
   LET listening == Owner(e.p) # {}
